@@ -136,7 +136,10 @@ fn gen_eps(rng: &mut Rng, k: i64, area: bool) -> f64 {
         0 => 0.0,
         1 => -(rng.range(0, 3) as f64) - 0.5,
         2 => -0.0,
-        3 | 4 => {
+        // tiny positive tolerances (below machine epsilon, down to the smallest normal number): exactly collinear
+        // vertices (distance / area 0) are within them, everything else is not
+        3 => *rng.pick(&[f64::MIN_POSITIVE, 1e-300, 1e-30, 2.0f64.powi(-60), 1e-17, 2e-16, f64::EPSILON]),
+        4 => {
             // larger than the geometry
             let b = big as f64;
             if area { 4.0 * b * b + 1.0 } else { 4.0 * b + 1.0 }
